@@ -137,6 +137,52 @@ def default_timeout(fn) -> int:
     raise Untranslatable(f"{fn.name}: unknown default timeout " + ast.dump(d))
 
 
+def timeout_guarded(fn) -> bool:
+    """is the `int(response_timeout[7:])` / `timedelta(seconds=…)` conversion of the granted TIMEOUT inside a `try` whose
+    handlers catch ValueError and OverflowError without re-raising?  (exactly one such conversion per function)"""
+    found = []
+
+    def has_int_call(node) -> bool:
+        return any(isinstance(n, ast.Call) and isinstance(n.func, ast.Name) and n.func.id == "int" for n in ast.walk(node))
+
+    def visit(node, guarded: bool):
+        if isinstance(node, ast.Try):
+            caught = set()
+            swallow = True
+            for h in node.handlers:
+                names = []
+                if h.type is None:
+                    names = ["ValueError", "OverflowError"]
+                elif isinstance(h.type, ast.Name):
+                    names = [h.type.id]
+                elif isinstance(h.type, ast.Tuple):
+                    names = [e.id for e in h.type.elts if isinstance(e, ast.Name)]
+                if "Exception" in names or "BaseException" in names:
+                    names += ["ValueError", "OverflowError"]
+                caught.update(names)
+                if any(isinstance(n, ast.Raise) for n in ast.walk(h)):
+                    swallow = False
+            g = guarded or (swallow and {"ValueError", "OverflowError"} <= caught)
+            for st in node.body:
+                visit(st, g)
+            for st in node.handlers + node.orelse + node.finalbody:
+                visit(st, guarded)
+            return
+        if isinstance(node, ast.stmt) and not isinstance(node, (ast.If, ast.For, ast.While, ast.With, ast.AsyncWith, ast.AsyncFor,
+                                                                   ast.FunctionDef, ast.AsyncFunctionDef)):
+            if has_int_call(node):
+                found.append(guarded)
+            return
+        for ch in ast.iter_child_nodes(node):
+            visit(ch, guarded)
+
+    for st in fn.body:
+        visit(st, False)
+    if len(found) != 1:
+        raise Untranslatable(f"{fn.name}: expected exactly one int(...) conversion of the granted TIMEOUT, found {len(found)}")
+    return found[0]
+
+
 @extract.generator("C09Gena")
 def gen(repo: Path) -> str:
     tree = extract.parse(repo, SRC)
@@ -151,5 +197,8 @@ def gen(repo: Path) -> str:
     out += "/-- async_unsubscribe -/\ndef unsubReq : ReqSpec :=\n  " + req_spec(uns, True) + "\n\n"
     out += f"def defaultTimeoutSubscribe : Int := {default_timeout(sub)}\n"
     out += f"def defaultTimeoutResubscribe : Int := {default_timeout(res)}\n"
+    out += "\n/-- the conversion of the granted TIMEOUT header is guarded: ValueError / OverflowError keep the requested timeout -/\n"
+    out += f"def subscribeTimeoutGuarded : Bool := {'true' if timeout_guarded(sub) else 'false'}\n"
+    out += f"def renewTimeoutGuarded : Bool := {'true' if timeout_guarded(ren) else 'false'}\n"
     out += "\nend Upnp.Gen.C09Gena\n"
     return out
